@@ -113,7 +113,14 @@ def check_scaling(ctx, num=3):
     ctx.touch(si)
     g = cfg_of(si, subst_env=False)
     st = [n for n in own_nodes(si.node) if isinstance(n, ast.Assign) and any(self_attr(t, "scaling_func") for t in n.targets)]
-    ok = any(norm.U(s.value) in ("Segment.SCALING_FUNCS[cpu_scaling]", "self.SCALING_FUNCS[cpu_scaling]") for s in st)
+    from . import sched as _sched
+    vals = []
+    for s_ in st:
+        if isinstance(s_.value, ast.Name):
+            vals += [d_.value for d_ in _sched.reaching_defs(si, g, s_, s_.value.id) if isinstance(d_, ast.Assign)]
+        else:
+            vals.append(s_.value)
+    ok = any(norm.U(v_) in ("Segment.SCALING_FUNCS[cpu_scaling]", "self.SCALING_FUNCS[cpu_scaling]") for v_ in vals)
     ctx.ob(3, "K6", "a segment created with a law's name runs that law", ok, si, st[0] if st else si.node, construct="self.scaling_func = SCALING_FUNCS[cpu_scaling]",
            detail=f"{[stmt_text(s) for s in st]}")
     for fld in ("baseline_cpu_seconds", "memory_gb", "storage_read_gb"):
